@@ -19,8 +19,11 @@ var rxMarker = regexp.MustCompile(`\bm(\d+)\b|/m(\d+)[.\-]`)
 
 // litWords: words that are also element names, tracked like tokens where they are the whole text of a node
 // (<em>style</em>); ids far above every generated token
-var litWords = map[string]int{"style": 9000001, "script": 9000002, "head": 9000003, "noscript": 9000004, "link": 9000005,
+var litWords = map[string]int{"style": 9000001, "script": 9000002, "head": 9000003, "noscript": 9000004,
 	"title": 9000006, "body": 9000007, "template": 9000008}
+
+// trackLitWords: only the pages of C03 write such words on purpose (one run at a time per process)
+var trackLitWords = false
 
 func tokensOf(s string) []int {
 	ms := rxTok.FindAllStringSubmatch(s, -1)
@@ -382,7 +385,7 @@ func (w *refWalker) walk(n *html.Node, ctx refCtx) {
 		return
 	case html.TextNode:
 		toks := tokensOf(n.Data)
-		if id, ok := litWords[strings.TrimSpace(n.Data)]; ok && len(toks) == 0 {
+		if id, ok := litWords[strings.TrimSpace(n.Data)]; ok && len(toks) == 0 && trackLitWords {
 			// a text node that is nothing but an everyday word which is also the name of an element
 			toks = []int{id}
 		}
